@@ -38,7 +38,7 @@ COMPONENTS = {
              "dali.driver.unipi construct/send"],
     "stub": ["asyncio.wait_for of CPython 3.8-3.11 (transcribed, sim/legacy_asyncio.py) on ~25 % of the asyncio-driver runs", "VirtualLoop, os, serial_asyncio, socket, serial.Serial, time", "usb / hid / pymodbus.client.sync modules", "gateway firmware"],
 }
-PROBES = ["slow-confirmation-set-aside", "rx-table", "rx-value", "rx-silent", "rx-error", "seq-wrapped", "refused-unsupported-length", "send-twice-encoded", "24-bit-encoded", "concurrent-callers",
+PROBES = ["reconnection-between-sends", "slow-confirmation-set-aside", "rx-table", "rx-value", "rx-silent", "rx-error", "seq-wrapped", "refused-unsupported-length", "send-twice-encoded", "24-bit-encoded", "concurrent-callers",
           "dt-prefix-emitted", "long-run-600"]
 
 ENGINES = ("tridonic", "hasseb", "luba", "sci", "daliserver", "atx", "legacy-tridonic", "legacy-hasseb", "unipi")
@@ -100,6 +100,18 @@ def gen_plan(seed, tier="quick"):
                     for _ in range(r.randrange(1, 8))]
             plan["callers"].append({"id": "B", "start_us": r.choice([0, 1000, 30000]), "ops": ops2})
         plan["max_iterations"] = 2_000_000
+        if eng == "tridonic" and not long_run and x.random() < 0.12:
+            # one write finds the gateway gone, it comes back, the driver reconnects and retries:
+            # sequence numbers keep their rules across the two connections
+            plan["write_fault_at"] = [3 + x.choice([0, 0, 0, 1, 2, 5])]       # (writes 0, 1 are the handshake)
+            plan["knobs"]["exceptions_on_send"] = False
+            plan["knobs"]["reconnect_interval"] = 0.05
+            for op in plan["callers"][0]["ops"]:
+                op.pop("exceptions", None)
+                if op["kind"] == "seq":             # (run_sequence has no retry mode)
+                    op["kind"] = "send"
+                    del op["items"]
+            plan["callers"] = plan["callers"][:1]
         return plan
     return {"engine": "syncsim", "property": PROP, "driver": eng, "seed": seed,
             "knobs": {"multi": r.random() < 0.5}, "cmds": specs}
@@ -262,7 +274,8 @@ def judge_async(rr):
             if a == b:
                 V("sequence-number-repeated", "seq %d used twice in a row" % a)
                 break
-            if b != (a % 255) + 1:
+            if b != (a % 255) + 1 and not (plan.get("write_fault_at") and b == ((a % 255) + 1) % 255 + 1):
+                # (a write that failed had taken a number with it: one may be skipped across a reconnection)
                 V("sequence-number-order", "seq %d followed by %d" % (a, b))
                 break
         if any(b < a for a, b in zip(seqs, seqs[1:])):
@@ -555,7 +568,15 @@ def run_plan(plan):
                          "cmds": [str(cmds.mk_cmd(s)) for s in plan["cmds"][:6]],
                          "written": [[_hx(p) for p in r[3]] for r in results[:6]]}
         return res
-    rr = drvsim.run(plan)
+    hooks = {}
+    if plan.get("write_fault_at"):
+        def setup(rr_):
+            rr_.dev.write_fault_at = set(plan["write_fault_at"])
+            rr_.dev.return_delay_us = 50000
+        hooks["setup"] = setup
+    rr = drvsim.run(plan, hooks)
+    if plan.get("write_fault_at") and getattr(rr.dev, "losses", None):
+        rr.world.probe("reconnection-between-sends")
     res = base_result(rr)
     for v in judge_async(rr):
         add_violation(res, v)
